@@ -133,6 +133,24 @@ UNITS += [
          contract="\n    // (implicit obligation: the selected packs are warmed up before they are read)\n"),
 ]
 
+PRN = "crates/core/src/commands/prune.rs"
+UNITS += [
+    Unit(name="prune_warms_up_before_repack", file=PRN, kind="block", within="pub(crate) fn prune_repository<S: Open>(",
+         anchor="@body", block_end="@fn_end",
+         block_sig="fn prune_warms_up_before_repack(repo: &VRepoW, opts: &PruneOptsW2, prune_plan: PrunePlanW2, w: &mut WarmWorld) -> (r: RusticResult<()>)",
+         block_tail="",
+         functions=["commands::prune::prune_repository (order: warm-up of the packs to repack, ..., repack)"],
+         rewrites=[
+             Rw("", "verr()", count=None, kind="err", optional=True, why="RusticError construction (kind/message/context dropped)"),
+             Rw("repo.warm_up_wait(prune_plan.repack_packs().into_iter())?;", "repo.vwarm_up_wait(prune_plan.repack_packs(), w)?;", why="Repository::warm_up_wait -> typestate stub"),
+             Rw(r"let be = repo\.dbe\(\);\n    let prune_time = .*?\n    p\.finish\(\);\n\n    if repack_packs\.is_empty\(\) \{\n        indexer\.finalize\(\)\?;\n    \} else \{.*?\n        indexer\.write\(\)\.unwrap\(\)\.finalize\(\)\?;\n        p\.finish\(\);\n    \}\n",
+                "let repack_packs = vplan_execution_elided(repo, prune_plan)?; if repack_packs.is_empty() { vfinalize_index_w()?; } else { vrepack_w(&repack_packs, w)?; }\n", regex=True,
+                why="ELIDED: everything between the warm-up and the repack branch (units of C02/C03) and the repack branch itself -> stubs; the repack stub REQUIRES the warm-up"),
+             Rw(r"// remove old index files first as they may reference pack files which are removed soon\..*?\n\n    Ok\(\(\)\)", "\n    Ok(())", regex=True, why="ELIDED: the removal tail (unit of C03)"),
+         ],
+         contract="\n    // (implicit obligation: the packs to repack are warmed up before the repack reads them)\n"),
+]
+
 # repair index re-reads pack headers from the (cold) store: the warm-up of exactly these packs must come first.  The unit lives
 # in C15's spec (it also decides the dry-run half of that function) and is verified as part of this check as well.
 SATELLITES = [("C15", ["RewriteOptions", "RepairSnapshotsOptions", "ConfigOptions", "TreeModifier", "repair_index_dry_run"])]
@@ -156,7 +174,7 @@ KANI_ASSUMPTIONS = [
 META = {
     "not_covered": [
         "repair hot/cold: get_missing_files (which files count as missing: closures, iterator adapters) and copy (rayon) -- stubs in the correct_missing_files unit",
-        "warm-up before the repack reads of prune_repository (its call is the statement after the guard; the repack branch is elided in the units) and WHICH packs RestorePlan::to_packs / the read-data subset select (iterator chains); the ordering at the call sites of restore, check --read-data and repair index IS decided",
+        "WHICH packs PrunePlan::repack_packs, RestorePlan::to_packs / the read-data subset select (iterator chains); the ordering at the call sites of restore, check --read-data, repair index and prune IS decided",
         "equivalence with a single-store repository beyond single backend calls",
     ],
 }
